@@ -12,7 +12,8 @@ from vlib.tlaparse import to_json
 HARNESS = ["zz_verif_c20_test.go", "zz_verif_c20b_test.go", "zz_verif_c20c_test.go"]
 WEAK = ["NoTrustedHashCompare", "NoBlockIDCompare", "NoLastCommitBinding", "TxNotBound", "NoTxProofCheck",
         "ResultsPreimage", "ResultsHeightUnbound", "NoResultsHashCompare", "NoQueryProofCheck", "AbsenceRawKey",
-        "NoParamsHashCompare", "ValsNotHashed", "SearchProofFromCachedBlock"]
+        "NoParamsHashCompare", "ValsNotHashed", "BackwardsTargetNotRechecked",
+        "SearchProofFromCachedBlock"]
 # the invariant each weakened spec must violate (any of)
 WEAK_EXPECT = {"ResultsPreimage": ["RelayComplete"], "AbsenceRawKey": ["RelayComplete"],
                "SearchProofFromCachedBlock": ["ServedProofsVerify"]}
@@ -102,17 +103,18 @@ def run(ctx):
             ctx.save_log("weak_" + w, rw.out)
             raise Undecided("vacuity: weakened spec Weak_%s is not refuted (%s)" % (w, names or rw.errors[:1]))
         nonvac["Weak_%s refuted by TLC" % w] = names[0]
-        if w == "SearchProofFromCachedBlock":
-            # the counterexample (a descending page spanning several heights) is replayed on the real rpc/core
+        if w in ("SearchProofFromCachedBlock", "BackwardsTargetNotRechecked"):
+            # the counterexample (a descending page spanning several heights / a forged block below the trust
+            # height followed by a broken interim chain) is replayed on the real code
             try:
                 attack = to_json(rw.violations[0]["trace"][0][1]["cs"])
             except Exception:
                 attack = None
             if attack is None:
-                raise Undecided("could not read the counterexample of Weak_SearchProofFromCachedBlock")
+                raise Undecided("could not read the counterexample of Weak_%s" % w)
             if attack not in cases:
                 cases.append(attack)
-            nonvac["attack case of Weak_SearchProofFromCachedBlock (replayed on real rpc/core.TxSearch)"] = attack["a"]
+            nonvac["attack case of Weak_%s (replayed on the real code)" % w] = {"kind": attack["kind"], "a": attack["a"], "f": attack["f"]}
     nonvac["RelaySoundStrict (TxResult / validator address) refuted by TLC"] = any(
         v["name"] == "RelaySoundStrict" for v in oth_res["strict"].violations)
     nonvac["ExtraComplete (BlockchainInfo with a fresh light client) refuted by TLC"] = any(
